@@ -417,3 +417,31 @@ func VerifC17_UUIDVariant() {
 	verifObserve("got", got)
 	verifAssert("uuid-format-iff-hex-and-rfc4122-variant", got == (isHex(x[0]) && isHex(v[0]) && rfc))
 }
+
+// ---- format "mac": IEEE 802 MAC-48, EUI-48, EUI-64 and 20-octet InfiniBand addresses ----
+
+func VerifC17_MACFormat() {
+	isHex := func(c byte) bool { return c >= '0' && c <= '9' || c|0x20 >= 'a' && c|0x20 <= 'f' }
+	groups := []int{5, 6, 7, 8, 9, 20}[nondetChoice("octets", 6)]
+	x := nondetString("digit", 1)
+	sep := ":"
+	if nondetBool("dash") {
+		sep = "-"
+	}
+	s := "0" + x
+	for i := 1; i < groups; i++ {
+		s += sep + "a1"
+	}
+	got := ValidateFormat("v", s, FormatMAC) == nil
+	want := (groups == 6 || groups == 8 || groups == 20) && isHex(x[0])
+	verifObserve("got", got)
+	verifAssert("mac-format-iff-6-8-or-20-octets-of-hex", got == want)
+	// dotted form: 3, 4 or 10 groups of four hex digits
+	dg := []int{2, 3, 4, 5, 10}[nondetChoice("dot-groups", 5)]
+	d := "00a" + x
+	for i := 1; i < dg; i++ {
+		d += ".0a1b"
+	}
+	gotDot := ValidateFormat("v", d, FormatMAC) == nil
+	verifAssert("mac-format-dotted-iff-3-4-or-10-groups", gotDot == ((dg == 3 || dg == 4 || dg == 10) && isHex(x[0])))
+}
